@@ -258,9 +258,11 @@ def seq_job(cfg):
             labs.append(last)
         return labs
 
+    new_states = 1
     while frontier:
         stats["levels"].append(len(frontier))
         nxt = []
+        new_states = 0
         for pkey, blob in frontier:
             for lab in labels:
                 w = pickle.loads(blob)
@@ -282,6 +284,7 @@ def seq_job(cfg):
                     continue
                 parents[key] = (pkey, lab)
                 stats["states"] += 1
+                new_states += 1
                 if w.within():
                     nxt.append((key, pickle.dumps(w, protocol=pickle.HIGHEST_PROTOCOL)))
             if budget is not None and time.time() - t0 > budget:
@@ -292,6 +295,8 @@ def seq_job(cfg):
             stats["samples"].append({"cfg": cfg, "trace": trace_of(nxt[len(nxt) // 2][0])})
         frontier = nxt
     stats["outcomes"] = sorted(stats["outcomes"], key=repr)
+    # the canonical state space closed below the depth bound: longer sequences reach no new state
+    stats["closed"] = new_states == 0 and not stats["max_seconds_hit"]
     stats["wall"] = time.time() - t0
     return stats
 
